@@ -12,6 +12,18 @@
 //! alphabet (qty{1,2} x price{100,110} x fee{0,0.3}) to a deeper bound (`pm-narrow`, `engine-narrow`).
 //! Bounds (max sequence length) quick / thorough: pm 4/5 (magnitude variants 4/4), pm-narrow 6/7,
 //! engine 3/4, engine-narrow 4/5.
+//! Further dimensions (added by the hardening rounds, each its own configuration, label in brackets):
+//!   * timestamps [`@equal`, `@dec`, `@zigzag`]: the statement quantifies over fills (side, price,
+//!     quantity, fee) - a fill counts whatever its exchange timestamp. Besides strictly increasing
+//!     times the fills are stamped all-equal, strictly decreasing (every fill older than the position's
+//!     entry) and zig-zag (0, 99, 2, 97, 4, ...: alternately newer than everything and older than the
+//!     last update but newer than the entry). pm 3/4 and pm-narrow 4/5, engine-narrow 3/4.
+//!   * mixed magnitudes inside one sequence [`-mixed`]: qty{1e-8, 1, 1e8} x price{100,110} x fee{0,0.3}
+//!     (24 symbols): a reduction that leaves a remainder 16 orders of magnitude below the position's
+//!     maximum, a flip whose remainder is dust, ... pm 4/5, engine 3/4.
+//!   * long histories [`-long`]: every word of length 1..=3 over the narrow alphabet repeated
+//!     cyclically up to length 40 / 120 (pm; engine: words of length <= 2): positions with dozens of
+//!     fills, dozens of consecutive closes / flips (anything that depends on the length of the history).
 //!
 //! The oracle is a cash-flow ledger computed from the fills only (never from the implementation):
 //! net signed quantity, sum of sell proceeds, sum of buy cost, sum of fees. Rules (each one is a
@@ -69,6 +81,44 @@ use std::{
 const QTY: [Decimal; 3] = [dec!(1), dec!(2), dec!(3)];
 const PRICE: [Decimal; 3] = [dec!(90), dec!(100), dec!(110)];
 const FEE: [Decimal; 2] = [dec!(0), dec!(0.3)];
+/// quantities of the `-mixed` alphabet (index `q` of a `Fill`): 16 orders of magnitude inside one sequence
+const QTY_MIXED: [Decimal; 3] = [dec!(0.00000001), dec!(1), dec!(100000000)];
+
+/// Which symbols `alphabet` offers (a `Fill` holds indices; `Mixed` reads `q` from QTY_MIXED).
+#[derive(Debug, Clone, Copy, PartialEq, Eq)]
+pub enum Alpha {
+    Full,
+    Narrow,
+    Mixed,
+}
+
+/// How the n-th fill of a sequence is time-stamped (seconds relative to t0).
+#[derive(Debug, Clone, Copy, PartialEq, Eq)]
+pub enum Times {
+    Inc,
+    Equal,
+    Dec,
+    ZigZag,
+}
+impl Times {
+    fn name(self) -> &'static str {
+        match self {
+            Times::Inc => "",
+            Times::Equal => "@equal",
+            Times::Dec => "@dec",
+            Times::ZigZag => "@zigzag",
+        }
+    }
+    fn secs(self, n: usize) -> i64 {
+        let n = n as i64;
+        match self {
+            Times::Inc => n,
+            Times::Equal => 0,
+            Times::Dec => -n,
+            Times::ZigZag => if n % 2 == 0 { n } else { 100_000 - n },
+        }
+    }
+}
 
 /// relative / absolute tolerance for "up to decimal rounding" (Decimal: 28 significant digits, scale <= 28)
 const REL_TOL: Decimal = dec!(0.000000000000000001); // 1e-18 of the gross cash flow so far
@@ -160,8 +210,11 @@ pub struct St {
 
 pub struct M {
     engine_layer: bool,
-    /// narrow alphabet (qty{1,2} x price{100,110} x fee{0,0.3} = 16 symbols) for the deeper bound
-    narrow: bool,
+    /// Narrow = qty{1,2} x price{100,110} x fee{0,0.3} (16 symbols) for the deeper bound
+    alpha: Alpha,
+    times: Times,
+    /// label infix of the long-history layer
+    long: bool,
     scale: Scale,
     instruments: IndexedInstruments,
     instrument: InstrumentIndex,
@@ -171,13 +224,18 @@ pub struct M {
 
 impl M {
     pub fn new(engine_layer: bool, narrow: bool, scale: Scale) -> Self {
+        Self::with(engine_layer, if narrow { Alpha::Narrow } else { Alpha::Full }, Times::Inc, scale)
+    }
+    pub fn with(engine_layer: bool, alpha: Alpha, times: Times, scale: Scale) -> Self {
         let instruments = IndexedInstruments::builder()
             .add_instrument(spot(EXCHANGES[0], "i0", "I0", "btc", "usdt"))
             .add_instrument(spot(EXCHANGES[0], "i1", "I1", "eth", "usdt"))
             .build();
         Self {
             engine_layer,
-            narrow,
+            alpha,
+            times,
+            long: false,
             scale,
             instruments,
             // the second instrument, so that index != 0
@@ -188,20 +246,42 @@ impl M {
     }
     pub fn label(&self) -> String {
         format!(
-            "{}{}/{}",
+            "{}{}{}{}/{}",
             if self.engine_layer { "engine" } else { "pm" },
-            if self.narrow { "-narrow" } else { "" },
+            match self.alpha {
+                Alpha::Full => "",
+                Alpha::Narrow => "-narrow",
+                Alpha::Mixed => "-mixed",
+            },
+            if self.long { "-long" } else { "" },
+            self.times.name(),
             self.scale.name
         )
     }
     pub fn from_label(label: &str) -> Self {
         let (layer, scale) = label.split_once('/').unwrap_or(("pm", "unit"));
         let scale = SCALES.iter().copied().find(|s| s.name == scale).unwrap_or(SCALES[0]);
-        Self::new(layer.starts_with("engine"), layer.ends_with("-narrow"), scale)
+        let (layer, times) = match layer.split_once('@') {
+            Some((l, "equal")) => (l, Times::Equal),
+            Some((l, "dec")) => (l, Times::Dec),
+            Some((l, "zigzag")) => (l, Times::ZigZag),
+            Some((l, _)) => (l, Times::Inc),
+            None => (layer, Times::Inc),
+        };
+        let alpha = if layer.contains("-mixed") {
+            Alpha::Mixed
+        } else if layer.contains("-narrow") {
+            Alpha::Narrow
+        } else {
+            Alpha::Full
+        };
+        let mut m = Self::with(layer.starts_with("engine"), alpha, times, scale);
+        m.long = layer.contains("-long");
+        m
     }
 
     fn trade(&self, f: &Fill, n: usize) -> Trade<QuoteAsset, InstrumentIndex> {
-        let q = QTY[f.q as usize] * self.scale.q;
+        let q = if self.alpha == Alpha::Mixed { QTY_MIXED[f.q as usize] } else { QTY[f.q as usize] } * self.scale.q;
         let p = PRICE[f.p as usize] * self.scale.p;
         let fee = FEE[f.f as usize] * self.scale.q * self.scale.p;
         Trade {
@@ -209,7 +289,7 @@ impl M {
             order_id: OrderId::new("o"),
             instrument: self.instrument,
             strategy: strategy_id(),
-            time_exchange: t_plus(n as i64),
+            time_exchange: t_plus(self.times.secs(n)),
             side: if f.buy { Side::Buy } else { Side::Sell },
             price: p,
             quantity: q,
@@ -280,7 +360,11 @@ impl SeqModel for M {
         }
         let mut v = Vec::with_capacity(36);
         // simplest first: fee 0, qty 1
-        let (qs, ps) = if self.narrow { (0..2u8, 1..3u8) } else { (0..3u8, 0..3u8) };
+        let (qs, ps) = match self.alpha {
+            Alpha::Narrow => (0..2u8, 1..3u8),
+            Alpha::Mixed => (0..3u8, 1..3u8),
+            Alpha::Full => (0..3u8, 0..3u8),
+        };
         for f in 0..FEE.len() as u8 {
             for q in qs.clone() {
                 for p in ps.clone() {
@@ -494,19 +578,64 @@ impl SeqModel for M {
     }
 }
 
+/// Long-history layer: every word of length 1..=max_word over the narrow alphabet, repeated cyclically
+/// up to `len` fills, each fill judged by the same oracle. Returns (words, steps, distinct final states).
+fn run_long(ctx: &Ctx, m: &M, max_word: usize, len: usize) -> (u64, u64, usize) {
+    use rayon::prelude::*;
+    let base = m.alphabet(&m.init(), &[]);
+    let mut words: Vec<Vec<Fill>> = base.iter().map(|f| vec![*f]).collect();
+    let mut last = words.clone();
+    for _ in 1..max_word {
+        last = last.iter().flat_map(|w| base.iter().map(move |f| [&w[..], &[*f]].concat())).collect();
+        words.extend(last.iter().cloned());
+    }
+    let label = m.label();
+    let finals: std::collections::HashSet<u64> = words
+        .par_iter()
+        .map(|w| {
+            let mut s = m.init();
+            let mut hist: Vec<Fill> = Vec::with_capacity(len);
+            for k in 0..len {
+                if s.dead {
+                    break;
+                }
+                let sym = w[k % w.len()];
+                let mut out = Vec::new();
+                m.step(&mut s, &sym, &hist, &mut out);
+                hist.push(sym);
+                for (sig, detail) in out {
+                    ctx.violate(sig, detail, json!({"engine": "seq", "label": label, "seq": hist}));
+                }
+            }
+            m.final_hash(&s)
+        })
+        .collect();
+    (words.len() as u64, words.len() as u64 * len as u64, finals.len())
+}
+
 pub fn run(ctx: &Ctx) -> Outcome {
-    // (engine layer?, narrow alphabet?, scale, depth)
-    let mut plan: Vec<(bool, bool, Scale, usize)> = Vec::new();
+    // (engine layer?, alphabet, time stamps, scale, depth)
+    let mut plan: Vec<(bool, Alpha, Times, Scale, usize)> = Vec::new();
     let (pm_full, pm_narrow, eng_full, eng_narrow) = ctx.tier.pick((4, 6, 3, 4), (5, 7, 4, 5));
     for (k, sc) in SCALES.iter().enumerate() {
         // the magnitude variants do not need the deepest bound
-        plan.push((false, false, *sc, if k == 0 { pm_full } else { pm_full.min(4) }));
+        plan.push((false, Alpha::Full, Times::Inc, *sc, if k == 0 { pm_full } else { pm_full.min(4) }));
     }
-    plan.push((false, true, SCALES[0], pm_narrow));
+    plan.push((false, Alpha::Narrow, Times::Inc, SCALES[0], pm_narrow));
     for sc in SCALES.iter() {
-        plan.push((true, false, *sc, eng_full));
+        plan.push((true, Alpha::Full, Times::Inc, *sc, eng_full));
     }
-    plan.push((true, true, SCALES[0], eng_narrow));
+    plan.push((true, Alpha::Narrow, Times::Inc, SCALES[0], eng_narrow));
+    // equal / decreasing / zig-zag exchange timestamps
+    let (t_full, t_narrow, t_eng) = ctx.tier.pick((3, 4, 3), (4, 5, 4));
+    for times in [Times::Equal, Times::Dec, Times::ZigZag] {
+        plan.push((false, Alpha::Full, times, SCALES[0], t_full));
+        plan.push((false, Alpha::Narrow, times, SCALES[0], t_narrow));
+        plan.push((true, Alpha::Narrow, times, SCALES[0], t_eng));
+    }
+    // magnitudes mixed inside one sequence
+    plan.push((false, Alpha::Mixed, Times::Inc, SCALES[0], ctx.tier.pick(4, 5)));
+    plan.push((true, Alpha::Mixed, Times::Inc, SCALES[0], ctx.tier.pick(3, 4)));
 
     let mut evaluations = 0u64;
     let mut sequences = 0u64;
@@ -514,12 +643,7 @@ pub fn run(ctx: &Ctx) -> Outcome {
     let mut per_cfg = Vec::new();
     let mut arms_total = [0u64; 5];
     let mut closed_total = 0u64;
-    for (engine_layer, narrow, scale, depth) in plan {
-        let m = M::new(engine_layer, narrow, scale);
-        let st = seq::run(ctx, &m, &m.label(), depth);
-        evaluations += st.steps;
-        sequences += st.sequences;
-        distinct += st.distinct_final;
+    let mut tally = |m: &M, max_len: usize, seqs: u64, steps: u64, distinct_final: usize, per_cfg: &mut Vec<Value>| {
         let arms: Vec<u64> = m.arms.iter().map(|a| a.load(Ordering::Relaxed)).collect();
         for (t, a) in arms_total.iter_mut().zip(&arms) {
             *t += a;
@@ -527,11 +651,30 @@ pub fn run(ctx: &Ctx) -> Outcome {
         let closed = m.closed_seen.load(Ordering::Relaxed);
         closed_total += closed;
         per_cfg.push(json!({
-            "label": m.label(), "max_len": depth, "sequences": st.sequences, "steps": st.steps,
-            "distinct_final_states": st.distinct_final,
+            "label": m.label(), "max_len": max_len, "sequences": seqs, "steps": steps,
+            "distinct_final_states": distinct_final,
             "steps_by_kind": {"open": arms[0], "increase": arms[1], "reduce": arms[2], "close": arms[3], "flip": arms[4]},
             "closed_records_emitted": closed,
         }));
+    };
+    for (engine_layer, alpha, times, scale, depth) in plan {
+        let m = M::with(engine_layer, alpha, times, scale);
+        let st = seq::run(ctx, &m, &m.label(), depth);
+        evaluations += st.steps;
+        sequences += st.sequences;
+        distinct += st.distinct_final;
+        tally(&m, depth, st.sequences, st.steps, st.distinct_final, &mut per_cfg);
+    }
+    // long histories (periodic words)
+    let long_len = ctx.tier.pick(40, 120);
+    for (engine_layer, max_word) in [(false, 3usize), (true, 2usize)] {
+        let mut m = M::with(engine_layer, Alpha::Narrow, Times::Inc, SCALES[0]);
+        m.long = true;
+        let (words, steps, d) = run_long(ctx, &m, max_word, long_len);
+        evaluations += steps;
+        sequences += words;
+        distinct += d;
+        tally(&m, long_len, words, steps, d, &mut per_cfg);
     }
     // non-vacuity: every kind of fill must have been exercised
     if arms_total.iter().any(|n| *n == 0) || closed_total == 0 {
@@ -541,6 +684,8 @@ pub fn run(ctx: &Ctx) -> Outcome {
     let samples = vec![
         json!({"label": "pm/unit", "seq": [Fill{buy:true,q:1,p:1,f:1}, Fill{buy:false,q:0,p:2,f:1}, Fill{buy:false,q:2,p:0,f:1}, Fill{buy:true,q:1,p:1,f:0}]}),
         json!({"label": "engine/unit", "seq": [Fill{buy:false,q:2,p:2,f:1}, Fill{buy:true,q:0,p:0,f:0}, Fill{buy:true,q:2,p:1,f:1}]}),
+        json!({"label": "pm-narrow@dec/unit", "seq": [Fill{buy:true,q:1,p:1,f:1}, Fill{buy:false,q:0,p:2,f:1}, Fill{buy:false,q:1,p:1,f:0}]}),
+        json!({"label": "pm-mixed/unit", "seq": [Fill{buy:true,q:2,p:1,f:1}, Fill{buy:false,q:0,p:2,f:1}, Fill{buy:false,q:2,p:1,f:1}]}),
     ];
     Outcome {
         level: "exploration",
@@ -549,7 +694,7 @@ pub fn run(ctx: &Ctx) -> Outcome {
             "sequences": sequences,
             "distinct_nontrivial": distinct,
             "exhaustive": true,
-            "rule": "all fill sequences of length <= max_len over side{Buy,Sell} x qty{1,2,3} x price{90,100,110} x fee{0,0.3} (36 symbols; '-narrow' configurations: qty{1,2} x price{100,110} = 16 symbols, deeper; fresh trade id per fill), per layer (PositionManager::update_from_trade / Engine::process of an account Trade) and magnitude variant; ledger oracle R1..R6 evaluated after every fill",
+            "rule": "all fill sequences of length <= max_len over side{Buy,Sell} x qty{1,2,3} x price{90,100,110} x fee{0,0.3} (36 symbols; '-narrow' configurations: qty{1,2} x price{100,110} = 16 symbols, deeper; '-mixed': qty{1e-8,1,1e8} x price{100,110} = 24 symbols; fresh trade id per fill), per layer (PositionManager::update_from_trade / Engine::process of an account Trade), magnitude variant and time-stamp pattern (increasing; '@equal', '@dec', '@zigzag'); '-long': every word of length <= 3 (engine: <= 2) over the narrow alphabet repeated cyclically up to max_len fills; ledger oracle R1..R6 evaluated after every fill",
             "steps_by_kind": {"open": arms_total[0], "increase": arms_total[1], "reduce": arms_total[2], "close": arms_total[3], "flip": arms_total[4]},
             "closed_records_emitted": closed_total,
             "per_configuration": per_cfg,
@@ -557,6 +702,7 @@ pub fn run(ctx: &Ctx) -> Outcome {
         }),
         assumptions: vec![
             "fills are on one instrument, price > 0, quantity > 0, fee >= 0 in the quote asset, fresh trade id per fill".into(),
+            "every fill counts whatever its exchange timestamp (the statement quantifies over side, price, quantity, fee): equal, decreasing and zig-zag timestamps are driven besides increasing ones".into(),
             "value alphabets avoid Decimal overflow; 'up to decimal rounding' = 1e-18 of the gross cash flow + 1e-24 per fill".into(),
             "quantity_abs_max, timestamps and the cost-basis method itself are not constrained by the statement and are not judged".into(),
         ],
